@@ -360,7 +360,7 @@ func cmdCheck(args []string) int {
 			"stale_findings":           stale,
 			"undecided":                undecided,
 			"samples":                  samples,
-			"back_ends":                "z3-new 5.1.0 first (4s), then race of z3 4.8.12 and cvc5 1.0.3; thorough: all three, cross-checked",
+			"back_ends":                "race of z3 5.1.0, z3 4.8.12 and cvc5 1.0.3 per obligation (first definitive answer wins); thorough: all three run to completion and cross-checked",
 			"contract_files":           relFiles(P.CS.Files, *repo, vd),
 		}}
 	if !*noEvidence {
